@@ -250,3 +250,34 @@ macro_rules! with_group_type {
     };
 }
 with_group_type!(Vec<u8>);
+
+/// Deliberately violating twins for rules whose expected count on the real tree is zero
+/// ("rule liveness": each scanner must fire on these on every run). Never executed.
+pub mod liveness {
+    use std::collections::HashMap;
+    pub fn effect_hashmap() -> usize {
+        let m: HashMap<u8, u8> = HashMap::new();
+        m.len()
+    }
+    pub fn effect_clock() -> u64 {
+        std::time::Instant::now().elapsed().as_secs()
+    }
+    pub fn effect_transmute(x: u32) -> f32 {
+        unsafe { core::mem::transmute(x) }
+    }
+    pub fn panic_index(v: &[u8], i: usize) -> u8 {
+        v[i]
+    }
+    pub fn panic_unwrap(o: Option<u8>) -> u8 {
+        o.unwrap()
+    }
+    pub fn panic_overflow(a: u8) -> u8 {
+        a + 1
+    }
+    pub fn alloc_with_capacity(n: usize) -> Vec<u8> {
+        Vec::with_capacity(n)
+    }
+    pub fn reorder(v: Vec<u8>) -> Vec<u8> {
+        v.into_iter().rev().collect()
+    }
+}
